@@ -574,6 +574,38 @@ def check_C08(ck, res, replay):
             mism += 1
             if mism <= 5:
                 res.broken.append(("correspondence", "parser model and implementation differ on %r" % text, json.dumps({"impl": a, "model": b})[:1500]))
+    # "yields, for each statement, a formula denoting the Boolean function written in the file": the diagram handles of
+    # Adf::from_parser on documents with keyword-like and quoted labels, judged by truth tables of the written formulas
+    compiled = 0
+    if hbin and not replay:
+        cf2 = gen.CaseFile()
+        for _ in range(250 if res.tier == "quick" else 6000):
+            text, n = gen.gen_adf(rng, nmax=6, depth=4, style=rng.below(3), layout={"shuffle": rng.chance(1, 3), "ws": rng.chance(1, 3)})
+            if well_declared(text):      # (whitespace inserted inside a quoted label makes another label)
+                cf2.add("ADF", ["text " + gen.hexs(text), "sort none", "backend native", "q acs", "q table"], meta={"text": text})
+        impl2, model2 = correspond(ck, res, cf2, hbin, "C08.compile")
+        for cid, (kind, body, meta) in cf2.meta.items():
+            a, b = impl2.get(cid), model2.get(cid)
+            if a is None or not a or not a[0].startswith("parse OK") or any(l.startswith("PANIC") or l == "build PANIC" for l in a):
+                res.violations.append({"key": "compile:no-diagram", "what": "a document of the documented format is not compiled: %s" % (a[:2] if a else a), "text": meta["text"]})
+                continue
+            t = [l for l in a if " table " in l]
+            acl = [l for l in a if " acs " in l]
+            names_impl = [bytes.fromhex(x[1:]).decode("utf8", "replace") for x in a[0].split()[2].split(",")] if len(a[0].split()) > 2 else []
+            if t and acl and names_impl:
+                names, conds = oracle.parse_adf_text(meta["text"])
+                tts, _, _ = oracle.truth_tables(oracle.parse_table(t[0].split(" table ", 1)[1]), len(names_impl))
+                acs = [int(x) for x in acl[0].split(" acs ")[1].split(",")]
+                for i, nm in enumerate(names_impl):
+                    if acs[i] >= len(tts) or tts[acs[i]] != formula_tt(conds.get(nm, ("bot",)), names_impl):
+                        res.violations.append({"key": "compile:wrong-function", "what": "the diagram stored for statement %r does not denote the formula written in the file" % nm, "text": meta["text"], "observed": a[:4]})
+                        break
+                compiled += 1
+            if a != b:
+                mism += 1
+                if mism <= 5:
+                    res.broken.append(("correspondence", "compiled document: model and implementation differ on %r" % meta["text"][:200], json.dumps({"impl": a, "model": b})[:1500]))
+    res.extra["documents_compiled_and_judged"] = compiled
     # the command line must not answer for text the parser rejects (every library mode has its own error path)
     cli_n = 0
     if not replay:
@@ -851,6 +883,15 @@ def check_C13(ck, res, replay):
 
 
 # ====================================================================== ADF semantics (C01 .. C05)
+BIO_FORBIDDEN = "!&|^=<>()?:"
+
+
+def bio_unsafe(text):
+    """does the text declare a (quoted) label with a character that biodivine-lib-bdd rejects in variable names?
+    (recorded finding of C15: the biodivine and hybrid modes abort on such labels; library-level checks keep them native)"""
+    return any(any(ch in BIO_FORBIDDEN for ch in lab) for lab in re.findall(r'"([^"]*)"', text))
+
+
 def adf_case_stream(res, rng, n_random, nmax, with_tt2=True, tt3=0, style_max=1):
     """yields ADF texts: all truth-table ADFs with n <= 2, random truth-table ADFs with n = 3,
     structured random ADFs, degenerate shapes"""
@@ -865,7 +906,12 @@ def adf_case_stream(res, rng, n_random, nmax, with_tt2=True, tt3=0, style_max=1)
         yield text, "rand"
     for text in ["s(a).ac(a,a).", "s(a).ac(a,neg(a)).", "s(a).s(b).s(c).ac(a,c).ac(b,and(b,a)).ac(c,c).",
                  "s(a).s(b).s(c).ac(a,a).ac(b,b).ac(c,c).", "s(a).s(b).ac(a,neg(b)).ac(b,neg(a)).", "s(a).s(b).",
-                 "s(a).ac(a,c(v)).s(b).ac(b,a).s(c).ac(c,b).s(d).ac(d,c).s(e).ac(e,d)."]:
+                 "s(a).ac(a,c(v)).s(b).ac(b,a).s(c).ac(c,b).s(d).ac(d,c).s(e).ac(e,d).",
+                 # quoted labels that look like syntax: different conditions that PRINT alike
+                 's(a).s(b).s("and(a,b)").s(x).s(y).ac(a,a).ac(b,b).ac("and(a,b)",c(f)).ac(x,"and(a,b)").ac(y,and(a,b)).',
+                 's("a,b").s(c).s(a).s("b,c").s(x).s(y).ac("a,b",c(v)).ac(c,c(v)).ac(a,c(v)).ac("b,c",c(f)).ac(x,and("a,b",c)).ac(y,and(a,"b,c")).',
+                 's("Const(T)").s(p).s(q).ac("Const(T)",c(f)).ac(p,"Const(T)").ac(q,c(v)).',
+                 's("not(a)").s(a).s(p).s(q).ac(a,c(f)).ac("not(a)",c(f)).ac(p,"not(a)").ac(q,neg(a)).']:
         yield text, "fixed"
 
 
@@ -986,6 +1032,8 @@ def run_adf_check(ck, res, replay, pid, queries_of, n_quick, n_thorough, nmax_q=
         for text, origin in adf_case_stream(res, rng, n_quick if quick else n_thorough, nmax_q if quick else nmax_t, tt3=tt3_q if quick else tt3_t):
             sort = rng.pick(["none", "none", "lexi"])
             backend = rng.pick(list(backends))
+            if bio_unsafe(text):
+                backend = "native"
             qs = queries_of(rng) if backends == ("native",) else queries_of(rng, backend)
             body = ["text " + gen.hexs(text), "sort " + sort, "backend " + backend]
             if seeds:
@@ -1238,7 +1286,7 @@ def check_C09(ck, res, replay):
         cf.add("ADF", r["body"], meta=r["meta"])
     else:
         def add(text, size):
-            backend = rng.pick(["native", "hyb0", "hyb1"])
+            backend = rng.pick(["native", "hyb0", "hyb1"]) if not bio_unsafe(text) else "native"
             sort = rng.pick(["none", "lexi"])
             qs = [["validate"], ["acs"], ["table"]]
             cf.add("ADF", ["text " + gen.hexs(text), "sort " + sort, "backend " + backend] + ["q " + " ".join(q) for q in qs],
@@ -1660,6 +1708,47 @@ def check_C10(ck, res, replay):
                                            "observed": [impl.get(views[0][0]), impl.get(cid)]})
                     break
             nontriv.add(b)
+    # the same through the command line: every library mode x {no sort, --lx, --an}; printed lines read as label -> value maps
+    cli_runs = 0
+    if not replay:
+        binary = build_cli(ck, res)
+        if binary:
+            cases = {}
+            texts = {}
+            for b in range(30 if quick else 400):
+                n = 3 + rng.below(4)
+                pool = rng.shuffle(["a", "B", "b10", "b9", "Z", "a1", "a01", "x", "10", "9", "c", "C2", "c10"])
+                names = pool[:n]
+                conds = [(nm, gen.gen_formula(rng, [rng.pick(names) for _ in range(4)], 1 + rng.below(3), nm)) for nm in names]
+                texts[b] = gen.render_adf(rng, names, conds, {"shuffle": rng.chance(1, 2)})
+                for mode in ("hybrid", "biodivine", "naive"):
+                    for sort in ("none", "lexi", "alnum"):
+                        for flag in ("grd", "com", "stm"):
+                            cases["p%d.%s.%s.%s" % (b, mode, sort, flag)] = {"text": texts[b], "mode": mode, "sort": sort, "flags": [flag]}
+            outs = run_cli_cases(ck, binary, cases)
+            for b in texts:
+                for flag in ("grd", "com", "stm"):
+                    ref = None
+                    for mode in ("hybrid", "biodivine", "naive"):
+                        for sort in ("none", "lexi", "alnum"):
+                            cid = "p%d.%s.%s.%s" % (b, mode, sort, flag)
+                            o_ = outs.get(cid)
+                            cli_runs += 1
+                            if o_ is None or o_[0] != 0:
+                                res.violations.append({"key": "presentation:cli-no-answer", "what": "adf-bdd --lib %s %s --%s gives no answer (exit %s)" % (mode, sort, flag, o_ and o_[0]),
+                                                       "text": texts[b]})
+                                continue
+                            maps = frozenset(frozenset(re.findall(r"([TFu])\(([^)]*)\)", l)) for l in o_[1] if l.strip())
+                            if ref is None:
+                                ref = (cid, maps)
+                            elif maps != ref[1]:
+                                res.violations.append({"key": "presentation:cli-answers-differ", "what": "the command line prints different label -> value maps for %s and %s" % (ref[0], cid),
+                                                       "text": texts[b], "observed": [outs[ref[0]][1][:6], o_[1][:6]]})
+                                break
+                        else:
+                            continue
+                        break
+    res.extra["cli_presentation_runs"] = cli_runs
     res.cov["evaluations"] = len(cf.meta)
     res.cov["distinct_nontrivial"] = len(nontriv)
     res.cov["rule"] = ("%d small ADFs (2-7 statements, all semantics) and %d large ones (30-60 statements, grounded) in 6 presentations each: canonical; facts shuffled + layout; "
@@ -1707,7 +1796,7 @@ def run_cli_cases(ck, binary, cases):
         args.append(p)
         try:
             r = subprocess.run(args, stdout=subprocess.PIPE, stderr=subprocess.PIPE, timeout=60, text=True, env={"PATH": os.environ.get("PATH", ""), "RUST_LOG": "error"})
-            res_ = (r.returncode, r.stdout.splitlines(), r.stderr[-300:])
+            res_ = (r.returncode, r.stdout.splitlines(), r.stderr if len(r.stderr) <= 900 else r.stderr[:600] + " ... " + r.stderr[-300:])
         except subprocess.TimeoutExpired:
             res_ = ("timeout", [], "")
         os.remove(p)
@@ -1762,6 +1851,12 @@ def check_C15(ck, res, replay):
             else:
                 bad = text + "s(q).ac(q,and(a,%s))." % ghost                                        # atom not declared
             add(bad, rng.pick(["hybrid", "biodivine", "naive"]), rng.pick(["none", "lexi"]), [rng.pick(["grd", "com", "stm"])], None, valid=False)
+        # quoted labels with characters that are syntax elsewhere (documented format: any quoted string is a label)
+        if not replay:
+            for lab in ['"and(a,b)"', '"x(1)"', '"a b"', '"a,b"', '"!a"', '"p&q"', '"a=b"', '"q?"', '"s(a)."', '"é"']:
+                t_ = 's(%s).s(k).s(m).ac(%s,neg(k)).ac(k,neg(%s)).ac(m,and(%s,neg(m))).' % (lab, lab, lab, lab)
+                for mode in ("hybrid", "biodivine", "naive"):
+                    add(t_, mode, rng.pick(["none", "lexi"]), ["grd", "stm"], None)
     real = run_cli_cases(ck, binary, cases) if binary else {}
     model, f2 = ck.run_sharded(os.path.join(ck.ROOT, "ocaml", "driver"), cf.lines, "C15.model")
     if f2:
@@ -1778,6 +1873,12 @@ def check_C15(ck, res, replay):
         if not c["valid"]:
             if code == 0 or lines:
                 res.violations.append({"key": "cli:malformed-answered", "what": "malformed input: exit %s with %d output lines" % (code, len(lines)), "meta": c, "observed": [code, lines[:3]]})
+            continue
+        if code != 0 and c["mode"] in ("hybrid", "biodivine") and bio_unsafe(c["text"]) and "Variable name" in err and "is invalid" in err:
+            # recorded finding: biodivine-lib-bdd refuses variable names with one of ! & | ^ = < > ( ) ? : and the two
+            # library modes that go through it abort; identified by the mode and this very abort
+            res.violations.append({"key": "cli:special-label:" + c["mode"], "what": "well-formed input with a quoted label containing one of %s: --lib %s aborts (exit %s)" % (BIO_FORBIDDEN, c["mode"], code),
+                                   "meta": c, "observed": [code, err.strip().splitlines()[-1][:200] if err.strip() else ""]})
             continue
         if code != 0:
             key = "cli:heu-abort" if c.get("heu") and "Mismatch between definition and access" in err or (c.get("heu") and code == 101) else "cli:nonzero-exit"
